@@ -8,6 +8,7 @@ compares the outcome of the block with that log (observational, nothing is predi
 program did not do).
 """
 from usim import time, Scope, until, instant, eternity, Concurrent, TaskCancelled
+from usim import Flag as usim_Flag
 
 from ..engine import EQ, GE, LE, LT, GT, AND, OR, NOT, IMPLIES, MAX, MIN
 from ..explore import Family
@@ -47,6 +48,12 @@ def fam_fail(E, n, kinds, body_kinds, cancel_one=False, real=False, inner=False,
     pb = E.pick('pb', 2)       # the body ends pb turns into time step b
     x = E.num('x', 0, 30, real=real) if cancel_one else None
     di = E.num('di', 0, 30, real=real) if inner else None     # child of an inner scope
+    firing = scope_kind in ('until-date', 'until-set')
+    u = E.num('u', 0, 30, real=real) if firing else None      # the until-notification fires at u
+    uflag = usim_Flag() if scope_kind == 'until-set' else None
+    # children waiting by a plain delay are queued for their date *ahead* of the interrupt that a
+    # notification firing at that date sends to the owner; waiting by `time == f` they come behind
+    cdirect = E.flag('cdirect') if firing else False
     log = Log()
     S = {}
 
@@ -76,7 +83,7 @@ def fam_fail(E, n, kinds, body_kinds, cancel_one=False, real=False, inner=False,
                 raise
             log(i, 'impossible')
             return
-        await at_cp(f[i], 0)
+        await at_cp(f[i], 0, direct=cdirect)
         if kind == FINISH:
             log(i, 'end')
             return
@@ -93,6 +100,11 @@ def fam_fail(E, n, kinds, body_kinds, cancel_one=False, real=False, inner=False,
         def make_scope():
             if scope_kind == 'until-delay':
                 return until(time + 500)          # never reached: must behave like Scope()
+            if scope_kind == 'until-date':
+                # fires at u: before, in the time step of, or after the failures
+                return until(time == u)
+            if scope_kind == 'until-set':
+                return until(uflag)
             if scope_kind == 'until-flag':
                 from usim import Flag
                 return until(Flag())
@@ -125,8 +137,15 @@ def fam_fail(E, n, kinds, body_kinds, cancel_one=False, real=False, inner=False,
         await (time + 100)
         log('by', 'end')
 
+    async def setter():
+        await at_cp(u, 0, direct=True)
+        log('set', 'set')
+        await uflag.set()
+
     async def root():
         async with Scope() as top:
+            if scope_kind == 'until-set':
+                top.do(setter())
             top.do(owner())
             top.do(bystander())
 
@@ -145,7 +164,7 @@ def fam_fail(E, n, kinds, body_kinds, cancel_one=False, real=False, inner=False,
     privileged = [e for e in child_raises if isinstance(e[3], PRIVILEGED)]
     # nothing of the children runs after the block
     for ev in log.events[pos_left + 1:]:
-        E.prove(ev[0] in ('by',), 'no-child-code-after-exit', ('%r', ev[:2]))
+        E.prove(ev[0] in ('by', 'set'), 'no-child-code-after-exit', ('%r', ev[:2]))
     if inner and log.has('own', 'inner-left') and not log.has('in', 'end'):
         E.fail('inner-scope-left-before-its-child-ended')
     # exactly one way of ending, with exactly the right content
@@ -200,11 +219,17 @@ def fam_fail(E, n, kinds, body_kinds, cancel_one=False, real=False, inner=False,
         body_end = log.first('own', 'body-end')
         if body_end is not None and log.pos(body_end) < log.pos(first):
             E.reach('failure-during-graceful-shutdown')
+        if firing:
+            E.reach_if(EQ(u, first[2]), 'failure-in-the-time-step-of-the-notification')
     else:
         last = b
         for i in range(n):
             last = MAX(last, f[i]) if not (cancel_one and i == 0) else last
-        if not cancel_one and not inner:
+        if firing:
+            E.prove(EQ(t_left, MIN(last, u)), 'exit-at-min(notification,completion)',
+                    ('left at %r, notification at %r, all done at %r', t_left, u, last))
+            E.reach_if(LT(u, last), 'notification-ends-the-block')
+        elif not cancel_one and not inner:
             E.prove(EQ(t_left, last), 'normal-exit-when-all-done')
     by = log.first('by', 'end')
     E.prove(by is not None and EQ(by[2], 100), 'bystander-undisturbed')
@@ -245,6 +270,24 @@ FAMILIES = [
            reach=['concurrent', 'no-failure', 'privileged'],
            bounds='the scope is an until-scope whose notification (a far delay / an unset flag) '
                   'does not fire'),
+    Family('until_firing', fam_fail,
+           quick=dict(n=2, kinds=[FINISH, ERR_A, SYS_EXIT], body_kinds=[FINISH, ERR_A],
+                      scope_kind='until-date'),
+           thorough=dict(n=2, kinds=K5, body_kinds=[FINISH, ERR_A, ASSERTION],
+                         scope_kind='until-date'),
+           reach=['concurrent', 'no-failure', 'privileged', 'notification-ends-the-block',
+                  'failure-in-the-time-step-of-the-notification'],
+           bounds='until(time == u) with a symbolic u: the notification fires before, in the time '
+                  'step of (ahead of or behind), or after the failures'),
+    Family('until_set', fam_fail,
+           quick=dict(n=2, kinds=[FINISH, ERR_A], body_kinds=[FINISH, ERR_A],
+                      scope_kind='until-set'),
+           thorough=dict(n=2, kinds=K5, body_kinds=[FINISH, ERR_A, ASSERTION],
+                         scope_kind='until-set'),
+           reach=['concurrent', 'no-failure', 'notification-ends-the-block',
+                  'failure-in-the-time-step-of-the-notification'],
+           bounds='until(flag), the flag is set at a symbolic date by an activity that runs ahead '
+                  'of the children'),
     # the scopes that first() and collect() open for their activities are Scopes like any other;
     # first() additionally suspends / resumes the scope's interrupts around every result it hands
     # out.  The harnesses and oracles are those of C16 (prompt failure as Concurrent[type] at the
